@@ -337,6 +337,8 @@ pub struct World {
 	pub scenario: Vec<usize>,
 	/// second hand-shaped scenario (same layout)
 	pub scenario2: Vec<usize>,
+	/// deepest reorganisation inside the horizon after a compaction (checks.rs)
+	pub scenario3: Vec<usize>,
 }
 
 /// The parts of a world that a run on top of it advances: saved before, restored after, so that every
@@ -421,6 +423,7 @@ impl World {
 			stats: BTreeMap::new(),
 			scenario: vec![],
 			scenario2: vec![],
+			scenario3: vec![],
 		}
 	}
 
